@@ -188,6 +188,10 @@ def run_case(rng, tier, case):
     sp = gen.strip_private(spec)
     X = [a for a in sp['assets'] if a['name'] == 'X'][0]
     ck = Clock(sp['grid'])
+    if sp['grid'].get('tz') and (X.get('start') or X.get('end')) and rng.random() < 0.3:
+        # the subject's window given zone-aware (the same instants in UTC or quoted in another zone than the grid's)
+        X['_date_form'] = gen.pick(rng, ['aware_utc', 'aware_other'])
+        case.feature('window_' + X['_date_form'])
     twovar = (cls in ('SimpleContract', 'Contract', 'MultiCommodityContract') and X.get('extra_costs') and X['min_cap'] < 0 < X['max_cap']) or \
              (cls == 'Storage' and (X.get('eff_in', 1) != 1 or X.get('cost_in') or X.get('cost_out') or len(X['nodes']) == 2))
     case.feature('mode:' + mode, 'class:' + cls, 'two_variables' if twovar else 'one_variable', 'freq:' + sp['grid']['freq'])
